@@ -4857,3 +4857,11 @@ M('C14', 'key-init-state-attribute-not-copied', PGP, KEYINIT,
 M('C14', 'uid-init-rank-attribute-not-copied', PGP, "        super(PGPUID, self).__init__()\n        self._uid = None\n        self._signatures = SorteDeque()\n",
   "        super(PGPUID, self).__init__()\n        self._uid = None\n        self._signatures = SorteDeque()\n        self._pinned = False\n", 'C14.4',
   more=[(PGP, "    def __lt__(self, other):  # pragma: no cover\n        if self.is_uid == other.is_uid:", "    def pin(self, value=True):\n        self._pinned = bool(value)\n\n    def __lt__(self, other):  # pragma: no cover\n        if self._pinned != other._pinned:\n            return self._pinned\n        if self.is_uid == other.is_uid:")])
+
+# ---- additive diagnostics around the Boolean decoder (C05-ref13)
+T('C14', 'twin-boolean-logged-odd-octet', SS, BFLAG, "    def bflag_bytearray(self, val):\n        octet = self.bytes_to_int(val)\n        if octet > 1:\n            self._log.debug('%s: boolean octet 0x%02x is neither 0 nor 1; treating it as true', self.__class__.__name__, octet)\n        self.bflag = bool(octet)",
+  more=[(SS, "class Boolean(Signature):\n", "class Boolean(Signature):\n    _log = logging.getLogger('pgpy.packet.subpackets')\n\n"), (SS, "import binascii\n", "import binascii\nimport logging\n")])
+T('C14', 'twin-boolean-asserted-and-warned', SS, BFLAG, "    def bflag_bytearray(self, val):\n        assert len(val) >= 1\n        octet = self.bytes_to_int(val)\n        if octet not in (0, 1):\n            warnings.warn('boolean subpacket octet is neither 0 nor 1')\n        self.bflag = bool(octet)",
+  more=[(SS, "import binascii\n", "import binascii\nimport warnings\n")])
+M('C14', 'boolean-logged-odd-octet-treated-false', SS, BFLAG, "    def bflag_bytearray(self, val):\n        octet = self.bytes_to_int(val)\n        if octet > 1:\n            self._log.debug('boolean octet 0x%02x is neither 0 nor 1; ignoring it', octet)\n            octet = 0\n        self.bflag = bool(octet)",
+  'C14.2', more=[(SS, "class Boolean(Signature):\n", "class Boolean(Signature):\n    _log = logging.getLogger('pgpy.packet.subpackets')\n\n"), (SS, "import binascii\n", "import binascii\nimport logging\n")])
